@@ -39,8 +39,40 @@ def order_callee_first(cg, scope):
     return order
 
 
-def analyse_scope(prog, cg, scope):
-    """Returns (obligations, analyzer). Obligations carry .ok and, when discharged by an axiom, .axiom."""
+def library_obligations(prog, scope):
+    """One obligation per external call that is panicky / unknown / a print; counts of the reviewed-total and handled ones."""
+    from . import libcalls
+    out, counts = [], {}
+    for fid in sorted(scope):
+        fn = prog.fns.get(fid)
+        if fn is None:
+            continue
+        for bb, t in fn.calls():
+            if fn.blocks[bb]["cleanup"]:
+                continue
+            c = callee_of(t)
+            rp = c.get("rpath") or c.get("path") or "?"
+            if rp in prog.fns:
+                continue
+            cls, why = libcalls.classify(rp, t)
+            counts[cls] = counts.get(cls, 0) + 1
+            if cls == "getopts":
+                okg, why = libcalls.getopts_check(prog, fn, bb, t, rp)
+                o = ranges.Obligation(fn, bb, t, "libcall", rp, okg, why)
+                o.libclass = cls
+                o.axiom = None
+                out.append(o)
+            if cls in ("panicky", "unknown", "print"):
+                o = ranges.Obligation(fn, bb, t, "libcall", rp, False, "%s: %s" % (cls, why))
+                o.libclass = cls
+                o.axiom = None
+                out.append(o)
+    return out, counts
+
+
+def analyse_scope(prog, cg, scope, libcalls=False):
+    """Returns (obligations, analyzer). Obligations carry .ok and, when discharged by an axiom, .axiom.
+    libcalls=True adds one obligation per external call that is not in the reviewed-total table (see libcalls.py)."""
     an = ranges.Analyzer(prog)
     order = order_callee_first(cg, scope)
     results = {}
@@ -107,6 +139,10 @@ def analyse_scope(prog, cg, scope):
                     o.axiom = ax[0]
                     o.detail = "%s: %s" % (ax[0], ax[1])
             allobl.append(o)
+    if libcalls:
+        lo, counts = library_obligations(prog, scope)
+        allobl += lo
+        an.lib_counts = counts
     return allobl, an
 
 
